@@ -41,6 +41,8 @@ structure DocCfg where
   attribsFollow : Rec → Bool             -- INSERT: dxf.attribs_follow != 0
   msp : V                                -- handle of the *Model_Space block record
   psp : V                                -- handle of the *Paper_Space block record
+  skipObject : Rec → Bool                -- `is_owned_by_unlinked_entity`: owned (directly or not) by a graphical entity without layout
+  castHeader : Nat → Tag → Option V      -- `_cast_header_value`: conversion of a header value to the type of another group code
 
 inductive DErr where
   | ent (e : Storage.Err)                -- raised while loading a tag storage entity
@@ -140,10 +142,11 @@ def entitiesPass (cfg : DocCfg) (recs : List Rec) : Except DErr (List Tag) :=
       | .modelspace => gs.filter (fun g => !pspOf cfg g)
       | .activePaperspace => gs.filter (fun g => pspOf cfg g))
 
-/-- OBJECTS: every record is stored in the entity space and exported in order; `appended` = what ezdxf writes for the objects it
-    creates itself while loading / saving (they are added behind the loaded ones) -/
+/-- OBJECTS: every record is stored in the entity space and exported in order, except the objects owned by a graphical entity
+    that is not linked to a layout (fix 42c45156c; `cfg.skipObject`); `appended` = what ezdxf writes for the objects it creates
+    itself while loading / saving (they are added behind the loaded ones) -/
 def objectsPass (cfg : DocCfg) (recs : List Rec) (appended : List Tag) : Except DErr (List Tag) :=
-  match writeGroups cfg (recs.map (fun r => (r, []))) with
+  match writeGroups cfg ((recs.filter (fun r => !cfg.skipObject r)).map (fun r => (r, []))) with
   | .ok ts => .ok (ts ++ appended)
   | .error e => .error e
 
@@ -299,6 +302,19 @@ def classesPass (r2004 : Bool) (recs : List Rec) (extra : List ClassE) : Option 
   | none => none
   | some cs => some ((extra.foldl registerE cs).flatMap (classExport r2004))
 
+def natV (n : Nat) : V := .str ((toString n).toList.map Char.toNat)
+
+/-- `ClassesSection.add_class(name)`: the CLASS entry ezdxf builds from `CLASS_DEFINITIONS` (no instance count) -/
+def classOfDef (d : List Nat × List Nat × List Nat × Nat × Nat × Nat) : ClassE :=
+  ⟨some (.str d.1), some (.str d.2.1), some (.str d.2.2.1), some (natV d.2.2.2.1), none, some (natV d.2.2.2.2.1),
+    some (natV d.2.2.2.2.2)⟩
+
+/-- `add_required_classes` without the classes of the DXF types in use: `REQUIRED_CLASSES.get(dxfversion, REQ_R2004)`; every
+    entry goes through `register`, so it never replaces an entry of the file with the same (name, C++ class name) -/
+def requiredExtra (r2004 : Bool) : List ClassE :=
+  (if r2004 then requiredR2004 else requiredR2000).filterMap fun n =>
+    (classDefinitions.find? (fun d => d.1 == n)).map classOfDef
+
 /-! ## HEADER -/
 
 /-- a header variable definition of `HEADER_VAR_MAP`: name, priority, first and last DXF version (as numbers: AC1015 -> 1015) -/
@@ -310,7 +326,7 @@ def isCustomName (n : V) : Bool := n == .str sCustomTag || n == .str sCustomProp
 
 /-- `HeaderSection.load_tags`: `hdrvars[name] = HeaderVar(value)` for every group that is not a custom property
     (OrderedDict: a repeated name keeps its first position and gets the later value) -/
-def headerVars : List (V × V) → List (V × V) → List (V × V)
+def headerVars {β : Type} : List (V × β) → List (V × β) → List (V × β)
   | [], acc => acc
   | g :: gs, acc => if isCustomName g.1 then headerVars gs acc else headerVars gs (dictSet acc g.1 g.2)
 
@@ -356,27 +372,6 @@ def headerExport (ver : Nat) (verText : V) (writeHandles : Bool) (vars : List (V
       | .always => customGroups custom
       | .fromR2004 => if 1018 ≤ ver then customGroups custom else [])
 
-/-- load -> save of the HEADER section as groups -/
-def headerPass (ver : Nat) (verText : V) (groups : List (V × V)) : List (V × V) :=
-  headerExport ver verText true (headerVars groups []) (customLoad groups)
-
-def startsDollar : V → Bool
-  | .str (36 :: _) => true
-  | _ => false
-
-/-- the tags of the HEADER section behind (0, SECTION), (2, HEADER) as (name, value) groups: `header_validator` (a name tag has
-    group code 9 and starts with "$"), `group_tags(splitcode=9)` and the "Missing value tag" check of `load_tags`; `none` = one
-    of their exceptions (a value tag with group code 9 starts a new group, which then has no value) -/
-def headerGroupsOf : List Tag → Option (List (V × V))
-  | [] => some []
-  | [_] => none
-  | n :: v :: r =>
-    if n.code == 9 && startsDollar n.val && v.code != 9 then
-      match headerGroupsOf r with
-      | some gs => some ((n.val, v.val) :: gs)
-      | none => none
-    else none
-
 def sACADMAINTVER : List Nat := [36, 65, 67, 65, 68, 77, 65, 73, 78, 84, 86, 69, 82]
 def sXCLIPFRAME : List Nat := [36, 88, 67, 76, 73, 80, 70, 82, 65, 77, 69]
 
@@ -389,15 +384,46 @@ def headerCode (ver : Nat) (name : V) : Nat :=
     | some d => d.2
     | none => 1
 
+/-- `_write` of `HeaderSection.export_dxf` (fix 16b0d709b): a value whose group code is not the one the variable requires is
+    converted to the type of the required code (`_cast_header_value`; `cast code tag`, value typing is the subject of C03);
+    when the conversion raises, the variable is NOT written -/
+def castGroup (ver : Nat) (cast : Nat → Tag → Option V) (p : V × Tag) : Option (V × V) :=
+  if p.2.code == headerCode ver p.1 then some (p.1, p.2.val)
+  else match cast (headerCode ver p.1) p.2 with
+    | some v => some (p.1, v)
+    | none => none
+
+/-- load -> save of the HEADER section as groups (name, value tag) -> (name, value) -/
+def headerPass (ver : Nat) (verText : V) (cast : Nat → Tag → Option V) (groups : List (V × Tag)) : List (V × V) :=
+  headerExport ver verText true ((headerVars groups []).filterMap (castGroup ver cast))
+    (customLoad (groups.map (fun g => (g.1, g.2.val))))
+
+def startsDollar : V → Bool
+  | .str (36 :: _) => true
+  | _ => false
+
+/-- the tags of the HEADER section behind (0, SECTION), (2, HEADER) as (name, value) groups: `header_validator` (a name tag has
+    group code 9 and starts with "$"), `group_tags(splitcode=9)` and the "Missing value tag" check of `load_tags`; `none` = one
+    of their exceptions (a value tag with group code 9 starts a new group, which then has no value) -/
+def headerGroupsOf : List Tag → Option (List (V × Tag))
+  | [] => some []
+  | [_] => none
+  | n :: v :: r =>
+    if n.code == 9 && startsDollar n.val && v.code != 9 then
+      match headerGroupsOf r with
+      | some gs => some ((n.val, v) :: gs)
+      | none => none
+    else none
+
 def headerTagsOf (ver : Nat) (groups : List (V × V)) : List Tag :=
   groups.flatMap (fun g => [⟨9, g.1⟩, ⟨headerCode ver g.1, g.2⟩])
 
 def sHEADER : List Nat := [72, 69, 65, 68, 69, 82]
 
 /-- load -> save of the HEADER section at tag level: `extra` = the tags behind (0, SECTION), (2, HEADER) -/
-def headerSectionPass (ver : Nat) (verText : V) (extra : List Tag) : Option (List Tag) :=
+def headerSectionPass (ver : Nat) (verText : V) (cast : Nat → Tag → Option V) (extra : List Tag) : Option (List Tag) :=
   match headerGroupsOf extra with
-  | some gs => some ([⟨0, .str sSECTION⟩, ⟨2, .str sHEADER⟩] ++ headerTagsOf ver (headerPass ver verText gs) ++ [endsecTag])
+  | some gs => some ([⟨0, .str sSECTION⟩, ⟨2, .str sHEADER⟩] ++ headerTagsOf ver (headerPass ver verText cast gs) ++ [endsecTag])
   | none => none
 
 /-! ## ACAD_PROXY_ENTITY and ACDSDATA -/
@@ -452,14 +478,15 @@ structure DictState where
   code : Nat                 -- value_code: the group code of the LAST handle tag, used for every entry at export
   deriving Repr, DecidableEq
 
-/-- one iteration of the loop in `Dictionary.load_dict` -/
+/-- one iteration of the loop in `Dictionary.load_dict` (fix ea8106c8c: `is not None` instead of truthiness: an empty name or
+    an empty handle is an entry like any other) -/
 def dictStep (s : DictState) (t : Tag) : DictState :=
   let s1 : DictState :=
     if t.code == 350 || t.code == 360 then { s with code := t.code, h := some t.val }
     else if t.code == 3 then { s with k := some t.val }
     else s
   match s1.k, s1.h with
-  | some k, some h => if truthy k && truthy h then { s1 with data := dictSet s1.data k h, h := none, k := none } else s1
+  | some k, some h => { s1 with data := dictSet s1.data k h, h := none, k := none }
   | _, _ => s1
 
 /-- `load_dict` over the tags of the AcDbDictionary subclass that `fast_load_dxfattribs` leaves over (everything except the
@@ -507,7 +534,7 @@ def loadSaveFile (cfg : DocCfg) (bc : BlockCfg) (order : List V) (orphan : V →
   match loadStructure recs with
   | .error e => .error (.struct e)
   | .ok secs =>
-    match (headerExtra secs).bind (headerSectionPass ver verText),
+    match (headerExtra secs).bind (headerSectionPass ver verText cfg.castHeader),
         classesPass (decide (1018 ≤ ver)) (sectionBody secs sCLASSES) extra, acdsOf secs with
     | none, _, _ => .error .header
     | _, none, _ => .error .classes
